@@ -23,7 +23,7 @@ def main(tier):
     plans2 += [{"injB": (0, 0, k, k)} for k in range(1, ND + 1)]
     res.merge(core.pmap(c16sweep.worker, [(b.dir, b.variant, "idle", plans2[lo:hi], "i") for lo, hi in core.chunks(len(plans2), 16)], timeout=1800))
     # (3) two injectors against the scanning daemon: seeded sample of the product space
-    n2 = core.scaled(160 if quick else 3000)
+    n2 = core.scaled(700 if quick else 6000)
     allp = c16sweep.enumerate_plans(4, ND)
     plans3 = []
     for i in range(n2):
@@ -32,7 +32,7 @@ def main(tier):
     res.merge(core.pmap(c16sweep.worker, [(b.dir, b.variant, "midscan", plans3[lo:hi], "t") for lo, hi in core.chunks(len(plans3), 32)], timeout=1800))
     # (4) every quiescent point of delivery/retry histories: requested timeout versus earliest due time, spin detection
     prof = {"lifetimes": [604800, 604800, 3000, 500], "p_alrm": 0.06, "p_term_restart": 0.05, "max_msgs": 4}
-    rh = histrun.run(PROP, b, core.scaled(200 if quick else 3000), prof, ["RetryOracle", "WakeupOracle"], salt="h")
+    rh = histrun.run(PROP, b, core.scaled(800 if quick else 6000), prof, ["RetryOracle", "WakeupOracle"], salt="h")
     rh.violations = [v for v in rh.violations if v["key"].startswith("C16/")]
     res.merge(rh)
     rule = ("(1) all %d merges (non-decreasing 4-tuples over 0..%d) of one qmail-queue's {link todo, open/write/close trigger} with "
